@@ -36,6 +36,11 @@ class Stages(AbsInt):
 
     def method_call(self, meth, node, recv, fr):
         if meth == 'corr' and isinstance(recv, frozenset):
+            # DataFrame.corr() with its defaults is the Pearson matrix of all rows; method= / min_periods= / numeric_only= change what is computed
+            opts = [k.arg for k in node.keywords if k.arg in ('method', 'min_periods') and not (k.arg == 'method' and isinstance(k.value, ast.Constant) and k.value.value == 'pearson')
+                    and not (k.arg == 'min_periods' and isinstance(k.value, ast.Constant) and k.value.value in (None, 1))] + (['positional'] if node.args else [])
+            if opts:
+                return self.each(recv, lambda a: a + ('corr-nondefault',))
             return self.each(recv, lambda a: a + ('corr',))
         if meth == 'cov' and isinstance(recv, frozenset):
             return self.each(recv, lambda a: a + ('cov',))
@@ -157,6 +162,10 @@ def run(ctx, rep):
             ok = 'scores' in stages and 'corr' in stages and 'nan0' in stages \
                 and stages.index('scores') < stages.index('corr') < stages.index('nan0')
             label = 'ridge' if any(x.startswith('ridge:') for x in alt) else 'plain'
+            if 'corr-nondefault' in stages:
+                rep.bad('D1.chain', fn, anchor, 'the correlation is computed with a non-default `method=` / `min_periods=`: it is no longer the Pearson correlation of the two score columns over all '
+                        'rows (min_periods also blanks the diagonal of small tables)', construct=f'return stages ({label} path)')
+                continue
             rep.check('D1.chain', fn, anchor, ok, f'stages {stages}',
                       f'the returned matrix passes {stages}: the NaN-to-zero step (constant columns) or the corr() of the normal scores is missing'
                       + (' (a covariance is not a correlation: the unit diagonal and the [-1, 1] range are lost unless every score column has variance 1)' if 'cov' in stages else ''),
